@@ -61,6 +61,7 @@ pub fn new_src(id: Id, script: &Script, k: K, sh: Rc<WrapShared>, cb_drop: Rc<Ce
         cb_this_dispatch: 0,
         pe_this_dispatch: 0,
         excused: false,
+        rereg_at_start: 0,
         was_disabled: false,
         reenabled: false,
         rereg_count_expected: 0,
@@ -188,6 +189,17 @@ pub fn exec_op(sim: &Sim, op: &Op, in_cb: bool) {
     if in_cb {
         sim.trace(|| format!("    cb-op {}", crate::engine::brief(op)));
         c08_cell(sim, op);
+    }
+    // a transient parent one of whose children just failed a scripted (un)registration is judged
+    // before anything else is done to it
+    if let Some(t) = op_target(op) {
+        let pending = matches!(sim.st.borrow().srcs.get(&t), Some(s) if s.indeterminate && s.in_processing == 0 && matches!(&s.k, K::Trans(k) if !k.gave_up));
+        if pending {
+            crate::transient::check(sim, t, "before_next_op");
+            if sim.is_dead() {
+                return;
+            }
+        }
     }
     match op {
         Op::Nop | Op::Dispatch(_) | Op::DropLoop | Op::Run { .. } | Op::BlockOn { .. } => {}
@@ -318,6 +330,7 @@ pub fn exec_op(sim: &Sim, op: &Op, in_cb: bool) {
                         // remove() of a disabled source unregisters it a second time: the
                         // parent's calls do not alternate, C18's proviso does not hold
                         s.indeterminate = true;
+                        t.gave_up = true;
                     }
                 }
                 let k = s.reg_key;
